@@ -136,7 +136,7 @@ def remote_shard(task):
           fk = ','.join('%s=%s' % kv for kv in sorted(fault.items()))
 
           def V(clause, text):
-            sig = 'C06|remote:%s|%s|%s|%s' % (clause, target, sorted(fault)[0], mode)
+            sig = 'C06|remote:%s|%s|%s|%s' % (clause, target, '+'.join(sorted(fault)), mode)
             vios.setdefault(sig, {'sig': sig, 'desc': '[%s] prefix %s fault %s: %s' % (who, prefix, fk, text), 'case': {'remote': True}})
           if invoked1 > 1:
             V('algorithm-invoked-more-than-once', 'one %s request invoked the algorithm %d times (the failure was %s)' % (target, invoked1, 'reported' if o1[0] == 'exc' else 'NOT reported: ' + str(o1)[:80]))
@@ -176,8 +176,9 @@ def run(ctx):
     c['cfg'] = cfg
     cov['runs'].append(c)
   faults = [{'fail_suggest': 'RuntimeError'}, {'fail_suggest': 'KeyError'}, {'fail_factory': 'ValueError'}, {'fail_stop': 'RuntimeError'}, {'fail_stop': 'ScriptedError'},
-            {'fail_suggest': 'RuntimeError', 'fail_once': True}, {'fail_stop': 'RuntimeError', 'fail_once': True}]       # transient: the first invocation only
-  rdeps = [('grpc', 'ram'), ('pythia', 'ram')] if ctx.quick else [('grpc', 'ram'), ('pythia', 'ram'), ('grpc', 'sql'), ('pythia', 'sql')]
+            {'fail_suggest': 'RuntimeError', 'fail_once': True}, {'fail_stop': 'RuntimeError', 'fail_once': True},       # transient: the first invocation only
+            {'fail_factory': 'AssertionError', 'fail_bare': True}, {'fail_suggest': 'NotImplementedError', 'fail_bare': True}, {'fail_stop': 'KeyError', 'fail_bare': True}]   # no message
+  rdeps = [('local', 'ram'), ('grpc', 'ram'), ('pythia', 'ram')] if ctx.quick else [('local', 'ram'), ('grpc', 'ram'), ('pythia', 'ram'), ('local', 'sql'), ('grpc', 'sql'), ('pythia', 'sql')]
   rn = 0
   for r in ctx.pmap('remote_shard', [{'deployments': [d], 'faults': faults} for d in rdeps]):
     rn += r['n']
